@@ -477,7 +477,7 @@ PROP = Property(
     id="C06",
     title="Every dataset in a collection carries exactly one subset per subset group",
     theorems=["C06.inv_init", "C06.step_inv", "C06.reachable_inv", "C06.spec_of_inv", "C06.reachable_spec",
-              "C06.reachable_ordered", "C06.old_removed_dataset_keeps_subsets", "C06.old_reappend_duplicates"],
+              "C06.reachable_ordered", "C06.restore_roundtrip", "C06.old_removed_dataset_keeps_subsets", "C06.old_reappend_duplicates"],
     families=[Seq(), SeqRandom()],
     trusted_base=["CPython list / dict-order semantics and WeakKeyDictionary iteration order (hub delivery order of the groups)",
                   "GlueSerializer / GlueUnSerializer are exercised, not modelled: `restore` models their effect on the collection bookkeeping only"],
